@@ -490,6 +490,10 @@ def shared_state(ctx) -> None:
 
 
 def run(ctx) -> None:
+    # a generator over terms/features yields for each element what that element says (Ordering.make, dissect, ...)
+    ctx.floor('R-ITERCARRIED', shared.r_itercarried(ctx, ctx.prog.functions([m for m in ctx.prog.modules if m.startswith(('forml.io.dsl', 'forml.provider.feed', 'forml.io._input'))])), 2)
+    # nothing is computed from a loop variable after its loop ran to completion (it would be the last element's value)
+    shared.r_staleloop(ctx, ctx.prog.functions([m for m in ctx.prog.modules if m.startswith(('forml.io.dsl', 'forml.provider.feed', 'forml.io._input'))]))
     prog = ctx.prog
     tenv = types.TypeEnv(prog)
     tables(ctx)
